@@ -354,9 +354,73 @@ def r4(ctx) -> None:
            construct=lib.short(c[0]) if c else "def")
 
 
+def r3_entry(ctx) -> None:
+    """Every item of every collection is visited, and every validation entry point forwards the parameters."""
+    repo = ctx.repo
+    ia = ctx.fn(MOD, "Model.iterate_all_items")
+    fl = lib.flow(ia, repo)
+    loops = [lp for lp in lib.nodes(ia, ast.For) if "iterate_items" in norm(lp.iter)]
+    ok = len(loops) == 1
+    var = None
+    if ok:
+        tgt = loops[0].target
+        var = norm(tgt.elts[1]) if isinstance(tgt, ast.Tuple) and len(tgt.elts) == 2 else None
+        ok = var is not None
+    dict_side = list_side = False
+    if ok:
+        for y in [n for n in ast.walk(loops[0]) if isinstance(n, (ast.YieldFrom, ast.Yield))]:
+            v = y.value
+            alts = [(v.body, True), (v.orelse, False)] if isinstance(v, ast.IfExp) and norm(v.test) == f"isinstance({var}, dict)" else None
+            if alts is None:
+                def cond_ok(test, polarity, at):
+                    e, pos = lib.strip_not(test)
+                    return norm(e) == f"isinstance({var}, dict)"
+                g = lib.guarded_by(fl, y, cond_ok, ia.node)
+                pol = None
+                if g is not None:
+                    # polarity of the recognised guard
+                    def cond_pos(test, polarity, at):
+                        e, pos = lib.strip_not(test)
+                        return norm(e) == f"isinstance({var}, dict)" and polarity == pos
+                    pol = lib.guarded_by(fl, y, cond_pos, ia.node) is not None
+                alts = [(v, pol)]
+            for e, pol in alts:
+                t = norm(e)
+                if t == f"{var}.values()" and pol is True:
+                    dict_side = True
+                if t == var and pol is not True:
+                    list_side = True
+    ctx.ob("C20-R3", "Model.iterate_all_items/dict-collections", ok and dict_side, ia, loops[0] if loops else ia.node,
+           "items of dict-typed collections (labelled items) are visited through .values()")
+    ctx.ob("C20-R3", "Model.iterate_all_items/list-collections", ok and list_side, ia, loops[0] if loops else ia.node,
+           "items of list-typed collections (clp_constraints, clp_relations, clp_penalties, weights) are visited as well: otherwise their "
+           "references are neither validated nor generated, yet filling them raises")
+    gi = ctx.fn(MOD, "Model.get_issues")
+    lp = [l_ for l_ in lib.nodes(gi, ast.For) if norm(l_.iter) == "self.iterate_all_items()"]
+    cs = [c for c in lib.calls(gi) if norm(c.func) == "get_item_issues"]
+    okg = len(lp) == 1 and len(cs) == 1 and lib.is_inside(cs[0], lp[0]) and {k.arg: norm(k.value) for k in cs[0].keywords} == \
+        {"item": norm(lp[0].target), "model": "self", "parameters": gi.params()[1]} if lp else False
+    ctx.ob("C20-R3", "Model.get_issues/all-items-with-parameters", bool(okg), gi, cs[0] if cs else gi.node,
+           "every item of the model is checked against the model and the given parameters", construct=lib.short(cs[0], 110) if cs else "def get_issues")
+    for nm in ("Model.validate", "Model.valid"):
+        f = ctx.fn(MOD, nm)
+        cs = [c for c in lib.method_calls(f, "get_issues") if lib.chain_text(c.func.value) == "self"]
+        pv = [norm(k.value) for c in cs for k in c.keywords if k.arg == "parameters"] + [norm(c.args[0]) for c in cs if c.args]
+        ctx.ob("C20-R3", f"{nm}/forwards-parameters", len(cs) == 1 and pv == [f.params()[1]], f, cs[0] if cs else f.node,
+               "the parameters given to the entry point are the ones the issues are computed with", construct=lib.short(cs[0], 90) if cs else "def")
+    SCH = "glotaran/project/scheme.py"
+    for nm, callee in (("Scheme.validate", "validate"), ("Scheme.valid", "valid")):
+        f = ctx.fn(SCH, nm)
+        cs = [c for c in lib.method_calls(f, callee) if lib.chain_text(c.func.value) == "self.model"]
+        pv = [norm(k.value) for c in cs for k in c.keywords if k.arg == "parameters"] + [norm(c.args[0]) for c in cs if c.args]
+        ctx.ob("C20-R3", f"{nm}/forwards-scheme-parameters", len(cs) == 1 and pv == ["self.parameters"], f, cs[0] if cs else f.node,
+               "a scheme is validated with its own parameters: without them missing parameters go unreported although filling raises",
+               construct=lib.short(cs[0], 90) if cs else "def")
+
+
 def check(ctx) -> None:
     for g in check.groups:
         g(ctx)
 
 
-check.groups = [r1, r2, r3, r4]
+check.groups = [r1, r2, r3, r4, r3_entry]
